@@ -254,22 +254,27 @@ func runC06(p *Prog, r *Report) {
 		checkReceiver(p, sub20, rc)
 		okG, whyG := true, ""
 		nGo := 0
-		for _, s := range Paths(rc).Segs {
-			for _, e := range s.Events {
-				if e.Kind == EvGo {
-					nGo++
-					if s.Start != rc.Blocks[0] || s.End != nil && false {
-						okG, whyG = false, "the receive goroutine is started inside a loop: several loops decode into the processor's single set of layer structs concurrently"
-					}
-					if len(LoopHeaders(rc)) > 0 {
-						for h := range LoopHeaders(rc) {
-							if loopBlocks(h)[e.Instr.Block()] {
-								okG, whyG = false, "the receive goroutine is started inside a loop: several loops decode into the processor's single set of layer structs concurrently"
-							}
-						}
+		heads := LoopHeaders(rc)
+		for _, b := range rc.Blocks {
+			for _, in := range b.Instrs {
+				g, isGo := in.(*ssa.Go)
+				if !isGo {
+					continue
+				}
+				callee := StaticCallee(&g.Call)
+				if callee == nil || !staticReachesInvoke(callee, "ProcessPacketData", 3) {
+					continue // not a goroutine that hands frames to the processor
+				}
+				nGo++
+				for h := range heads {
+					if loopBlocks(h)[b] {
+						okG, whyG = false, "the receive goroutine is started inside a loop: several receive loops decode into the processor's single set of layer structs concurrently"
 					}
 				}
 			}
+		}
+		if nGo > 1 {
+			okG, whyG = false, fmt.Sprintf("%d goroutines hand frames to the same processor concurrently", nGo)
 		}
 		r.Check(okG && nGo >= 1, "C06.R5", FuncName(rc)+"/single-goroutine", p.Pos(rc.Pos()), "exactly one goroutine runs the receive loop of a receiver (the processor's decoder structs are not shared between concurrent decodes)", whyG)
 	}
@@ -623,4 +628,27 @@ func checkARPGuard(p *Prog, r *Report, proc *ssa.Function, fp *FnPaths) {
 		d = strings.Join(bad[:5], "; ") + fmt.Sprintf("; … (%d combinations)", len(bad))
 	}
 	r.Check(len(bad) == 0 && okSeen, "C06.R2", name+"/arp-sizes", pos, "the ARP record is emitted (and its addresses sliced) exactly for Ethernet/IPv4 ARP with 6-byte hardware and 4-byte protocol addresses (guards folded over 64 header combinations)", d)
+}
+
+// staticReachesInvoke: fn (or a static callee within depth d) invokes an interface method of that name.
+func staticReachesInvoke(fn *ssa.Function, method string, d int) bool {
+	if fn == nil || fn.Blocks == nil || d < 0 {
+		return false
+	}
+	for _, b := range fn.Blocks {
+		for _, in := range b.Instrs {
+			ci, ok := in.(ssa.CallInstruction)
+			if !ok {
+				continue
+			}
+			c := ci.Common()
+			if c.IsInvoke() && c.Method.Name() == method {
+				return true
+			}
+			if cal := StaticCallee(c); cal != nil && cal != fn && cal.Pkg == fn.Pkg && staticReachesInvoke(cal, method, d-1) {
+				return true
+			}
+		}
+	}
+	return false
 }
